@@ -27,7 +27,9 @@ RULE = (
     "longer part of the build (removed, renamed) are enumerated and seed the miss set before the closure. R10 collect_diagnosed stores "
     "every kind of Diag (fresh and replayed), since the blob it produces replaces the one carried over for a restored file. R11 in "
     "pipeline::analyze every site that sets context.skip = true (pass2 will not run) is followed on every path by "
-    "Incremental::invalidate of that file unless no cache is open."
+    "Incremental::invalidate of that file unless no cache is open. R12 the comparison by which dst_is_stale lets a cache hit skip "
+    "emission identifies the content the output was generated from (a hash), not a modification time: `veryl check` updates the cached "
+    "hash without emitting, so mtime evidence is unsound for sources whose mtime is preserved (known finding F16)."
 )
 
 CRATES = None  # whole workspace: R1 quantifies over every function of the consumer crates
@@ -269,7 +271,7 @@ def run(world, tier, info, only=None):
 
 def commit_order(ck, w, R):
     """the cache manifest is committed (Incremental::save) only after every output of the command was written"""
-    WR = r"^veryl::utils::write_file_if_changed$|^veryl::cmd_build::CmdBuild::gen_filelist$|^std::fs::write$|^veryl_metadata::metadata::Metadata::save_build_info$|^veryl_path::atomic_write$"
+    WR = r"^veryl::utils::write_(file|output)_if_changed$|^veryl::cmd_build::CmdBuild::gen_filelist$|^std::fs::write$|^veryl_metadata::metadata::Metadata::save_build_info$|^veryl_path::atomic_write$"
     for cmd in ("veryl::cmd_build::CmdBuild::exec", "veryl::cmd_check::CmdCheck::exec"):
         if cmd not in w.fns:
             ck.missing(R, cmd)
@@ -378,6 +380,32 @@ def miss_set_rules(ck, w):
           "saved entries whose source is no longer part of the build are added to the miss set (enumerated through %s)" % [e.split("::")[-1] for e in enumerators] if ok9 else
           "Incremental::open never enumerates the saved entries (store enumerators available: %s): the dependents of a removed or renamed file are "
           "restored from the cache" % [e.split("::")[-1] for e in enumerators])
+    # R12 the evidence that lets a hit skip emission must identify the *content* the output was generated from
+    DS = "veryl::incremental::Incremental::dst_is_stale"
+    if DS in w.fns:
+        sd = w.fns[DS]
+        g = Fn(w.mir(DS))
+        cmps = g.calls(r"PartialOrd(<.*>)?(>)?::(gt|lt|ge|le)$|PartialEq(<.*>)?(>)?::(eq|ne)$")
+        n12 = 0
+        for bi, t in cmps:
+            if t["dst"] != [0, []] and g.ty(t["dst"][0]) != "bool":
+                continue
+            pv = set()
+            for a in t["args"]:
+                pv |= g.prov(a, depth=24)
+            timey = sorted({x[1].split("::")[-1] for x in pv if x[0] == "call" and re.search(r"fs::metadata$|Metadata::modified$|SystemTime::now$", x[1] or "")})
+            contenty = [x for x in pv if x[0] == "call" and re.search(r"content_hash$|blake3|Hasher", x[1] or "")]
+            if not timey and not contenty:
+                continue
+            n12 += 1
+            ck.ob("R12", "output-freshness-is-content-based", bool(contenty) and not timey, site(sd, t["l"]),
+                  "dst_is_stale compares a content identity of the source with the one the output was generated from" if contenty and not timey else
+                  "dst_is_stale trusts an output when mtime(source) <= time of generation (%s): `veryl check` stores a changed source's hash without "
+                  "emitting, so a changed source carrying an old mtime (cp -p, rsync -t, tar x) is restored as a hit and the output of the OLD "
+                  "source is kept" % timey)
+        ck.floor("R12", "freshness comparisons in dst_is_stale", n12, 1)
+    else:
+        ck.missing("R12", DS)
     # R7 transitive closure of the dependents map
     DF = "veryl_analyzer::type_dag::TypeDag::dependent_files"
     if DF not in w.fns:
